@@ -28,8 +28,11 @@ def cand(base, k):
     return base + TAIL if k == 1 else "%s-%d%s" % (base, k, TAIL)
 
 
+ECHO = [""]        # question section of the responses of the event being generated (a responder may echo the question it answers)
+
+
 def resp(records):
-    return "DELIVER n|0|0|1|0||" + ";".join(records)
+    return "DELIVER n|0|0|1|0|%s|%s" % (ECHO[0], ";".join(records))
 
 
 def query_with(records):
@@ -77,6 +80,7 @@ def gen_schedule(rng, base, n):
     m, lines = Mirror(), ["NEW 0 prober " + rec(base + TAIL, rtype=rng.choice([33, 33, 16]), ttl=120)]
     for _ in range(n):
         G_TTL[0] = rng.choice([120, 120, 120, 0, 0, 4500, 1])
+        ECHO[0] = "%s,255,0" % hexs(cand(base, m.k)) if rng.random() < 0.2 else ""
         if rng.random() < 0.5:
             apply(m, rng.choice(["conflict", "conflict", "conflict2", "earlier", "later", "othertype", "query"]), lines, base)
         else:
